@@ -372,9 +372,9 @@ func c20EndToEnd(c *Ctx, im *Impl) {
 		Must(err)
 		Must(certificates.SaveToPEMFile(keyFile, []interface{}{key}, osw))
 	}
-	n := 24
+	n := 40
 	if c.Thorough() {
-		n = 120
+		n = 200
 	}
 	now := time.Now()
 	lg := logger.NewReceptorLogger("")
@@ -391,6 +391,23 @@ func c20EndToEnd(c *Ctx, im *Impl) {
 		}
 		if i == 1 {
 			ids = []string{"Controller-01", "kiosk-7"}
+		}
+		// names that any "tidying" on the way into the request or the certificate would change: white space
+		// at either end (ASCII and Unicode), composed vs decomposed letters, invisible characters, repeated
+		// and case-variant IDs, a trailing dot
+		switch i {
+		case 2:
+			ids = []string{" node1", "tab\t", "\u00a0nbsp", "trail\u00a0", "\nline", "in ner"}
+		case 3:
+			ids = []string{"e\u0301", "\u00e9", "a\u200bb", "ab", "\ufeffbom"}
+		case 4:
+			ids = []string{"dup", "Dup", "DUP", "dup.", "dup"}
+		case 5:
+			ids = []string{" ", "\t", "x"}
+			dns = []string{"Host.Example.COM", "host.example.com.", "xn--bcher-kva.example"}
+		case 6:
+			ids = []string{"zz", "aa", "mm"} // order must be kept as requested
+			ips = []net.IP{net.ParseIP("10.0.0.1").To4(), net.ParseIP("::ffff:10.0.0.1"), net.ParseIP("fe80::1"), net.ParseIP("10.0.0.1").To4()}
 		}
 		for k := r.Intn(3); k > 0; k-- {
 			dns = append(dns, genDNS(r))
@@ -468,6 +485,9 @@ func c20EndToEnd(c *Ctx, im *Impl) {
 		inWindow := window <= 1
 		cands := append([]string{}, ids...)
 		cands = append(cands, "not-"+ids[0], ids[0]+"x", "", strings.ToUpper(ids[0])+"_")
+		for _, id := range ids { // what a normalising step would turn a requested ID into
+			cands = append(cands, strings.TrimSpace(id), " "+id, id+" ", strings.TrimRight(id, "."), id+".", strings.ReplaceAll(id, "\u200b", ""))
+		}
 		// near misses that differ from a requested ID only by letter case / Unicode case folding
 		for _, id := range ids {
 			for _, v := range []string{strings.ToUpper(id), strings.ToLower(id), strings.Title(strings.ToLower(id)),
